@@ -263,6 +263,12 @@ def probe(schema, dialect, text, rng, history=True, values=None):
     # textual positions in the statement with literals written in
     sent = [VAL0 + i for i in range(len(found))]
     vals = [rng.choice(EDGE) if rng.random() < 0.6 else VAL0 + i for i in range(len(found))]
+    # a placeholder written right after a minus: the parsers fold `- <number>` (also `- - <number>`) into one constant,
+    # so what "the literal written inline" is can only be said for numbers there
+    marks = [m.start() for m in re.finditer(r'\?', text)]
+    for i, pos in enumerate(marks[:len(vals)]):
+        if re.search(r'-[\s(]*$', text[:pos]) and (isinstance(vals[i], bool) or not isinstance(vals[i], (int, float))):
+            vals[i] = rng.choice([0, 0.0, -3, -2.5, 1, 2.5])
     if values == 'distinct':
         vals = list(sent)
     elif values is not None:
